@@ -149,12 +149,42 @@ def malformed_cases(rng, tier):
     return cases
 
 
+def seq_cases(rng, tier):
+    """one date checked under each calendar in turn, twice, inside ONE case (so in one process): the answer must
+    depend on the calendar in force, not on what an earlier calendar left in a cache"""
+    cases = []
+    dates = [(y, 2, d) for y in (0, 4, 1900, 2000, 2004, 2023, 2024) for d in (28, 29, 30)] + \
+            [(y, mo, d) for y in (2001, 2004) for mo in (1, 4, 12) for d in (30, 31)]
+    for y, mo, d in dates:
+        order = MODES[:]
+        rng.shuffle(order)
+        seq = order + order[::-1]
+        cases.append(Case([mk(md, y, mo, d) for md in seq], ["ctor", "calendar", "mode-sequence"], md="*", fam="KS",
+                          seq=seq, date="C %d %d %d" % (y, mo, d)))
+    for y in (2001, 2004, 2100):
+        for doy in (360, 361, 365, 366):
+            order = MODES[:]
+            rng.shuffle(order)
+            seq = order + order[::-1]
+            cases.append(Case([mk(md, y, doy=doy) for md in seq], ["ctor", "ordinal", "mode-sequence"], md="*", fam="KS",
+                              seq=seq, date="O %d %d" % (y, doy)))
+        for w in (51, 52, 53):
+            order = MODES[:]
+            rng.shuffle(order)
+            seq = order + order[::-1]
+            cases.append(Case([mk(md, y, w=w, dow=7) for md in seq], ["ctor", "week", "mode-sequence"], md="*", fam="KS",
+                              seq=seq, date="W %d %d 7" % (y, w)))
+    return cases
+
+
 def generate(rng, tier):
-    return ctor_cases(tier) + text_invalid_cases(rng, tier) + malformed_cases(rng, tier)
+    return ctor_cases(tier) + seq_cases(rng, tier) + text_invalid_cases(rng, tier) + malformed_cases(rng, tier)
 
 
 def model_lines(c):
     fam, md = c.meta["fam"], c.meta["md"]
+    if fam == "KS":
+        return list(c.lines) + ["s_validdate %s %s" % (m, c.meta["date"]) for m in c.meta["seq"]]
     if fam in ("K", "X"):
         return [c.lines[0], "s_validdate %s %s" % (md, c.meta["date"])]
     if fam in ("T", "Z", "Y"):
@@ -179,6 +209,19 @@ def judge(c):
     I, M, fam = c.impl, c.model, c.meta["fam"]
     res = []
     from props.c07 import close
+    if fam == "KS":
+        n = len(c.lines)
+        for i, m in enumerate(c.meta["seq"]):
+            if not close(I[i], M[i]) and M[i] != "UNMODELLED":
+                res.append(("disagree", "%s (step %d of a mode sequence): implementation %r, model %r" % (c.lines[i], i, I[i], M[i])))
+            accepted = not I[i].startswith("ERR")
+            if I[i].startswith(("EXC", "HANG")):
+                res.append(("violation", "%s -> %s" % (c.lines[i], I[i])))
+            elif accepted != (M[n + i] == "1"):
+                res.append(("violation", "%s in mode %s, after the modes %s in the same process, is %s but the calendar says it is %s" % (
+                    c.meta["date"], m, ",".join(c.meta["seq"][:i]) or "-", "accepted" if accepted else "refused",
+                    "valid" if M[n + i] == "1" else "impossible")))
+        return res
     if fam in ("K", "X", "T", "Z", "Y"):
         if not close(I[0], M[0]) and M[0] != "UNMODELLED":
             res.append(("disagree", "%s: implementation %r, model %r" % (c.lines[0], I[0], M[0])))
